@@ -307,6 +307,10 @@ class Caps:
         chk = uri_mod.CHKFileURI(k(b"chk"), k(b"ueb", 32), 3, 10, 1000 + tag[0])
         dchk = uri_mod.CHKFileURI(k(b"dchk"), k(b"dueb", 32), 3, 10, 2000 + tag[0])
         hx = k(b"fut").hex().encode()
+        # a cap of a future format is any string this version cannot parse: vary its first characters too (they
+        # must survive prefix stripping byte for byte), among them the letters of the "ro." / "imm." prefixes
+        fut = [b"x-tahoe-future-cap:", b"x-tahoe-future-cap:", b"rocap-v9:", b"object-cap:", b"immcap7:", b"mo.cap:",
+               b"or.x-cap:", b"i.m.r.o:"][k(b"futscheme", 1)[0] % 8]
         self.t = {
             ("CHK", "r"): chk.to_string(),
             ("LIT", "r"): uri_mod.LiteralFileURI(k(b"lit", 9)).to_string(),
@@ -317,7 +321,7 @@ class Caps:
             ("DIR2", "w"): uri_mod.DirectoryURI(dssk).to_string(), ("DIR2", "r"): uri_mod.DirectoryURI(dssk).get_readonly().to_string(),
             ("DIR2-MDMF", "w"): uri_mod.MDMFDirectoryURI(dmdmf).to_string(),
             ("DIR2-MDMF", "r"): uri_mod.MDMFDirectoryURI(dmdmf).get_readonly().to_string(),
-            ("FUT", "w"): b"x-tahoe-future-cap:w" + hx, ("FUT", "r"): b"x-tahoe-future-cap:r" + hx,
+            ("FUT", "w"): fut + b"w" + hx, ("FUT", "r"): fut + b"r" + hx,
             ("FUTW", "w"): b"x-tahoe-future-test-writeable:w" + hx, ("FUTW", "r"): b"x-tahoe-future-test-writeable:r" + hx,
             ("FUTM", "w"): b"x-tahoe-future-test-mutable:w" + hx, ("FUTM", "r"): b"x-tahoe-future-test-mutable:r" + hx,
         }
@@ -677,13 +681,19 @@ def run_c18_trees(args, inp, rng):
         g = Grid(wd, num_servers=1, k=1, n=1, happy=1, seed=args.seed)
         try:
             uniq = [0]
-            tree = build_tree(g, rng, inp["cases"], rng.choice([1, 2, 2]), uniq)
-            root = tree["node"]
-            events = []
-            walk_tree(g, root, tree, "w", [], events)
-            walk_tree(g, g.nodemaker.create_from_cap(root.get_readonly_uri()), tree, "r", [], events)
-            plain_events(g, g.nodemaker, tree, [], events)
-            out.append({"consts": {"root_kind": tree["caps"].kind}, "events": events, "mutable_objects": g.keypool.i})
+            events, rk = [], "dir2"
+            try:
+                tree = build_tree(g, rng, inp["cases"], rng.choice([1, 2, 2]), uniq)
+                rk = tree["caps"].kind
+                root = tree["node"]
+                walk_tree(g, root, tree, "w", [], events)
+                walk_tree(g, g.nodemaker.create_from_cap(root.get_readonly_uri()), tree, "r", [], events)
+                plain_events(g, g.nodemaker, tree, [], events)
+            except Exception as e:       # the Spec knows no failing step here: the exception itself is the observation
+                import traceback
+                events.append({"ev": "crash", "what": "%s: %s" % (type(e).__name__, str(e)[:200]),
+                               "where": traceback.format_exc().strip().splitlines()[-3].strip()[:200]})
+            out.append({"consts": {"root_kind": rk}, "events": events, "mutable_objects": g.keypool.i})
         finally:
             g.close()
             shutil.rmtree(wd, ignore_errors=True)
@@ -708,6 +718,17 @@ def seeded_graph(rng, nobj):
         types[o] = t
         kids[o] = []
         order.append(o)
+    # the backing mutable file of a directory, linked as a plain file: a different object (different verify-cap) on the
+    # same storage index -- the traversal must report both the directory and the file
+    alias = {}
+    if rng.random() < 0.4:
+        dirs_ = [x for x in order if types[x] == "dir"]
+        for j, d_ in enumerate(rng.sample(dirs_, min(len(dirs_), rng.choice([1, 1, 2])))):
+            o = "o%d" % (nobj + 1 + j)
+            types[o] = "mfile"
+            kids[o] = []
+            order.append(o)
+            alias[o] = d_
     used = {o: set() for o in types}
 
     def link(d, to, lvl):
@@ -757,7 +778,7 @@ def seeded_graph(rng, nobj):
                 k["lvl"] = "r"
             elif rng.random() < 0.3:
                 k["lvl"] = "r"
-    return {"type": types, "kids": kids, "root": "o1"}
+    return {"type": types, "kids": kids, "root": "o1", "alias": alias}
 
 
 class GraphWorld:
@@ -774,6 +795,8 @@ class GraphWorld:
             if t == "dir":
                 node = g.run(self.nm.create_new_mutable_directory(version=rng.choice([SDMF_VERSION, MDMF_VERSION])))
                 self.caps[o] = {"w": node.get_uri(), "r": node.get_readonly_uri()}
+            elif t == "mfile" and o in graph.get("alias", {}):
+                continue
             elif t == "mfile":
                 w = rng.choice([uri_mod.WriteableSSKFileURI, uri_mod.WriteableMDMFFileURI])(k(o, b"wk"), k(o, b"fp", 32))
                 self.caps[o] = {"w": w.to_string(), "r": w.get_readonly().to_string()}
@@ -783,6 +806,8 @@ class GraphWorld:
                 self.caps[o] = {"w": None, "r": uri_mod.LiteralFileURI(b"L" + o.encode()).to_string()}
             elif t == "unk":
                 self.caps[o] = {"w": None, "r": b"ro.x-tahoe-future-cap:" + o.encode()}
+        for o, d in graph.get("alias", {}).items():
+            self.caps[o] = {lv_: uri_mod.from_string(self.caps[d][lv_]).get_filenode_cap().to_string() for lv_ in ("w", "r")}
         while pending:
             progress = False
             for o in list(pending):
@@ -873,10 +898,15 @@ def run_c21(args, inp, rng):
         used += ndirs
         graph = copy.deepcopy(graph)
         graph.setdefault("root", "o1")
-        w = GraphWorld(g, graph, rng, b"%d" % gi)
         events = []
-        for via in ("w", "r"):
-            events += w.observe(via)
+        try:
+            w = GraphWorld(g, graph, rng, b"%d" % gi)
+            for via in ("w", "r"):
+                events += w.observe(via)
+        except Exception as e:       # the Spec knows no failing traversal of these graphs: the exception is the observation
+            import traceback
+            events.append({"ev": "crash", "what": "%s: %s" % (type(e).__name__, str(e)[:200]),
+                           "where": traceback.format_exc().strip().splitlines()[-3].strip()[:200]})
         out.append({"consts": {"type": graph["type"], "kids": graph["kids"], "root": graph["root"]}, "events": events,
                     "src": graph.get("src", "seeded" if gi >= len(graphs) - args.n else "tlc")})
     if g is not None:
